@@ -900,6 +900,7 @@ func main() {
 	dbOut := flag.String("db", "", "output Lean file: translated DB.search")
 	lsmOut := flag.String("lsm", "", "output Lean file: translated searchLowerBound")
 	tableOut := flag.String("table", "", "output Lean file: translated binary searches")
+	filterOut := flag.String("filter", "", "output Lean file: translated bloom filter")
 	flag.Parse()
 	if *locktable != "" {
 		genLockTable(*repo, *locktable)
@@ -927,6 +928,9 @@ func main() {
 	}
 	if *tableOut != "" {
 		genTable(*repo, *tableOut)
+	}
+	if *filterOut != "" {
+		genFilter(*repo, *filterOut)
 	}
 	if *skeleton != "" {
 		genSkeleton(*repo, *skeleton)
